@@ -93,6 +93,11 @@ def binop(I, op, a, b, inplace=False):
         raise Unsupported("%-formatting with symbolic operand")
     fa = isinstance(a, (float, SymFloat))
     fb = isinstance(b, (float, SymFloat))
+    if (fa or fb) and getattr(I, "real_floats", False) and not isinstance(a, SymFloat) and not isinstance(b, SymFloat) \
+            and isinstance(a, (int, float, SymInt, SymBool)) and isinstance(b, (int, float, SymInt, SymBool)):
+        # exact-rational model of float arithmetic, enabled per harness (its use is justified by a separately proved
+        # IEEE lemma and every counterexample is replayed natively)
+        return _real_bin(I, t, a, b)
     if fa or fb:
         if not isinstance(a, (int, float, SymInt, SymFloat, SymBool)) or not isinstance(b, (int, float, SymInt, SymFloat, SymBool)):
             I.raise_("TypeError", "unsupported operand type(s)")
@@ -825,6 +830,24 @@ class SymSplit(Sym):
         return parts[k]
 
 
+def m_bytes_rsplit(I, obj, args, kw):
+    """bytes.rsplit(sep, 1) for a 1-byte separator on symbolic bytes: split at the LAST separator"""
+    sep = args[0] if args else None
+    maxsplit = args[1] if len(args) > 1 else kw.get("maxsplit", -1)
+    if not isinstance(sep, bytes) or len(sep) != 1 or maxsplit != 1:
+        raise Unsupported("rsplit of symbolic bytes other than rsplit(<1 byte>, 1)")
+    b = as_symbytes(obj)
+    n = b.length
+    j = I.ctx.fresh_int("rsplit")
+    q = z3.Int("_qr%d" % I.ctx.next_id())
+    has = z3.And(zi(j) >= 0, zi(j) < zi(n), zi(b.get(zi(j))) == sep[0],
+                 z3.ForAll([q], z3.Implies(z3.And(q > zi(j), q < zi(n)), zi(b.get(q)) != sep[0])))
+    none = z3.ForAll([q], z3.Implies(z3.And(q >= 0, q < zi(n)), zi(b.get(q)) != sep[0]))
+    if I.ctx.decide_assume(has, none, "rsplit-has-sep"):
+        return [bytes_slice(b, 0, j), bytes_slice(b, int_add(j, 1), None)]
+    return [b]
+
+
 def m_dict_get(I, obj, args, kw):
     k = args[0]
     d = args[1] if len(args) > 1 else None
@@ -857,6 +880,7 @@ _METHODS = {
     ("bytes", "decode"): m_bytes_decode,
     ("bytes", "join"): m_bytes_join,
     ("bytes", "split"): m_bytes_split,
+    ("bytes", "rsplit"): m_bytes_rsplit,
     ("str", "encode"): m_str_encode,
     ("str", "split"): m_text_split,
     ("str", "join"): m_str_join,
@@ -1306,6 +1330,15 @@ def _convert(I, tname, args, kw):
         return list(I.iterate_concrete(v))
     if tname == "tuple":
         return tuple(I.iterate_concrete(v))
+    if tname == "set" and isinstance(v, GList):
+        # set of guarded elements: a guarded collection of the distinct values (iteration order of a real set is
+        # unspecified; the model iterates in first-occurrence order)
+        d = GDict()
+        for g, k in v.items:
+            if isinstance(k, Sym):
+                raise Unsupported("guarded set with symbolic member")
+            d.put(k, g, None)
+        return d
     if tname == "set":
         items = I.iterate_concrete(v)
         if is_plain(items):
@@ -1463,6 +1496,10 @@ class GList(Sym):
         return I.truth(b_or(*[g for g, _ in self.items])) if self.items else False
 
     def sym_method(self, I, name, args, kw):
+        if name == "append":
+            g = I.current_guard()
+            self.items.append((g, args[0]))
+            return None
         return call_native_method(I, self.sym_iter(I), name, args, kw)
 
 
@@ -1505,6 +1542,17 @@ class GDict(Sym):
             if g is True or I.decide(g, "guarded-key"):
                 return v
         I.raise_("KeyError", k)
+
+    def sym_setitem(self, I, k, v):
+        if isinstance(k, Sym):
+            raise Unsupported("guarded dict with symbolic key")
+        self.put(k, I.current_guard(), v)
+
+    def sym_contains(self, I, k):
+        if k in self.entries:
+            g, _ = self.entries[k]
+            return g
+        return False
 
 
 def dict_fromkeys(I, args, kw):
@@ -1802,7 +1850,7 @@ def make_stub_modules(I):
     m = mod("re")
     m.ns["DOTALL"] = 16
     m.ns["search"] = NativeFn("re.search", _unmodelled("re.search"))
-    m.ns["compile"] = NativeFn("re.compile", _unmodelled("re.compile"))
+    m.ns["compile"] = NativeFn("re.compile", lambda I_, a, k: Opaque("re.compiled-pattern"))
     m.ns["match"] = NativeFn("re.match", _unmodelled("re.match"))
 
     m = mod("importlib")
